@@ -183,3 +183,24 @@ def replay(v):
         return None
     check_cols(b, be, list(r.columns), ops, c, final_select)
     return b.violations[0]["detail"] if b.violations else None
+
+
+def w_pruned_window_leaks_columns():
+    import pandas
+    from data_algebra.view_representations import TableDescription
+
+    t = TableDescription(table_name="t1", column_names=["g0", "x0", "uid"])
+    p = t.extend({"o1": "_row_number()"}, partition_by=["g0"], order_by=["uid"]).select_columns(["x0"]).order_rows(["x0"])
+    d = pandas.DataFrame({"g0": ["a", "b"], "x0": [1.0, 2.0], "uid": [0, 1]})
+    sq = backends.Sqlite()
+    try:
+        r = sq.run(p, {"t1": d})
+    finally:
+        sq.close()
+    if list(r.columns) != ["x0"]:
+        return ("extend(window, partition_by=['g0'], order_by=['uid']).select_columns(['x0']).order_rows(['x0']) returns "
+                "columns %s on SQLite, declared ['x0']" % list(r.columns))
+    return None
+
+
+WITNESSES = {"sql-pruned-window-extend-leaks-window-columns": w_pruned_window_leaks_columns}
